@@ -27,7 +27,8 @@ THEOREMS = ['Pyiga.Props.C18.' + t for t in (
     'gta_extend_orthonormal', 'gta_extend_skip_rule', 'gta_extend_rank_le_size', 'gta_extend_noskip_not_orthonormal',
     'gta_extend_absolute_appends_noise',
     'slice_semantics', 'slice_terms_between', 'normalize_indices_spec', 'faithful_getitem_leaf', 'faithful_squeeze_leaf',
-    'truncation_disjoint', 'truncation_budget', 'faithful_truncate', 'faithful_nway', 'faithful_pad', 'faithful_getitem')]
+    'truncation_disjoint', 'truncation_budget', 'faithful_truncate', 'faithful_nway', 'faithful_pad', 'faithful_getitem',
+    'aca_exact_rank1_partial')]
 MODULES = ['Pyiga.Model.Tensor', 'Pyiga.Proofs.TensorBasic', 'Pyiga.Proofs.TensorArith', 'Pyiga.Proofs.TensorOps',
            'Pyiga.Proofs.TensorAdd', 'Pyiga.Proofs.TensorAddSpec', 'Pyiga.Proofs.TensorNway', 'Pyiga.Proofs.TensorPad', 'Pyiga.Proofs.TensorOperator', 'Pyiga.Proofs.TensorGen',
            'Pyiga.Proofs.TensorT2C', 'Pyiga.Proofs.TensorGreedy', 'Pyiga.Proofs.TensorNorm', 'Pyiga.Proofs.TensorSqueeze',
